@@ -8,8 +8,8 @@ CONSTANTS
   LockVal = 2
   LowGas = 1
   GasUnit = 1
-  MaxGasSteps = 3
-  Prices <- P12
+  MaxGasSteps = 2
+  Prices <- P1
   IntrinsicGas = 2
   TxGas = 2
   Rent = 1
@@ -17,9 +17,9 @@ CONSTANTS
   TxValues <- V01
   CallValues <- V01
   Regimes <- RBG
-  Prefills <- PFEdge
+  Prefills <- PF0
   TxKinds <- TKAll
-  OpKinds <- OKAll
+  OpKinds <- OKNone
   DestClasses <- DAll
   AmtClasses <- AAll
   GlClasses <- GAll
@@ -29,6 +29,7 @@ CONSTANTS
   MaxFrameOps = 1
   MaxTx = 1
   UsedMode = "all"
+  GrindFail = TRUE
 VIEW view
 INVARIANTS TypeOK NoNegative NoCreation ExactUnlessBurn EtxBacked ChargeWithinBounds FailedTxTouchesOnlyPayer FailedEtxTouchesNothing AllOrNothing StackDiscipline IndexFresh BlockOutboundIsConcatOfSurvivors
 CHECK_DEADLOCK FALSE
